@@ -339,6 +339,90 @@ theorem C10_pipeline_chain_any_prefix (h : Refines R Inv rem) (s : Stage β X S 
   have e2 : r.c.top = q.it := by rw [← r2]; rfl
   exact ⟨r, r1, by rw [e1, e2, q3, fr], by rw [e2]; exact q2, r3⟩
 
+/-- `from_state` reads nothing of its receiver but the number of tracked iterators (and the runners,
+which are the chain itself): restoring through the running iterator (`it.from_state(state)`) and
+through a fresh one (`pipeline.make().iterate().from_state(state)`, the idiom of the tests) is the
+same. -/
+theorem C10_chain_from_state_receiver (rs : List (Stage β X S Res)) (c₁ c₂ : ChainIt R rs)
+    (hl : c₁.tracked.length = c₂.tracked.length) (st : (chainRec R rs).St) :
+    ChainIt.fromState R rs c₁ st = ChainIt.fromState R rs c₂ st := by
+  simp only [ChainIt.fromState, hl]
+
+/-- the result every stage reports when its aggregate is fed, as ONE batch, all the rows of all the
+outputs of that stage in the uninterrupted run (stages downstream first) -/
+def oneBatchResults : List (Stage β X S Res) → List β → List Res
+  | [], _ => []
+  | s :: ss, E =>
+    s.m.result (s.m.ofBatch (((chainOut (s :: ss) E).map s.batchOf).flatten)) :: oneBatchResults ss E
+
+/-- With lawful aggregates (`Lemmas/AggCore.lean`, the C01 laws) at every stage, the result of
+EVERY stage after any interrupted history is the result of one accumulator fed all rows of that
+stage's uninterrupted output as a single batch. -/
+theorem C10_pipeline_chain_any_onebatch (h : Refines R Inv rem) (s : Stage β X S Res)
+    (ss : List (Stage β X S Res)) (hf : ∀ t ∈ s :: ss, ∀ a, (t.f a).length ≤ 1)
+    (hl : ∀ t ∈ s :: ss, ∃ Eqv : S → S → Prop, Agg.Lawful t.m Eqv)
+    (it : R.It) (hi : Inv it) (ops : List Op) (k : Nat)
+    (hk : (chainOut (s :: ss) (rem it)).length < k) :
+    ∃ r, ChainRun.run R (s :: ss) (ChainRun.init R (s :: ss) it) (ops ++ [.take k]) = .ok r ∧
+      ((s :: ss).zip (aggsDown R (s :: ss) r.c.top)).map (fun p => p.1.m.result p.2) =
+        oneBatchResults (s :: ss) (rem it) := by
+  obtain ⟨r, _, r1, _, _, _, r3, _⟩ := C10_pipeline_chain_any h s ss hf it hi ops k hk
+  refine ⟨r, r1, ?_⟩
+  rw [r3]
+  have : ∀ (rs : List (Stage β X S Res)) (E : List β),
+      (∀ t ∈ rs, ∃ Eqv : S → S → Prop, Agg.Lawful t.m Eqv) →
+      (rs.zip (finalAggs rs E)).map (fun p => p.1.m.result p.2) = oneBatchResults rs E := by
+    intro rs E
+    induction rs with
+    | nil => intro _; rfl
+    | cons t ts ih =>
+      intro hl
+      obtain ⟨Eqv, hlaw⟩ := hl t (List.mem_cons_self ..)
+      simp only [finalAggs, oneBatchResults, List.zip_cons_cons, List.map_cons]
+      rw [ih (fun u hu => hl u (List.mem_cons_of_mem _ hu))]
+      congr 1
+      exact hlaw.result_congr (hlaw.feed_eq _)
+  exact this (s :: ss) (rem it) hl
+
+/-- **… over a `SequenceDataSource`** with any accepted chain of `shard(i, k, offset)` calls: no
+hypothesis left but "every stage is row-wise". -/
+theorem C10_pipeline_chain_any_seq (data : List β) (chain : Chain) (src : Src)
+    (hs : chain.foldlM Src.shard (Src.root data.length) = .ok src)
+    (s : Stage β X S Res) (ss : List (Stage β X S Res))
+    (hf : ∀ t ∈ s :: ss, ∀ a, (t.f a).length ≤ 1) (ops : List Op) (k : Nat)
+    (hk : (chainOut (s :: ss) (seqElems data src)).length < k) :
+    ∃ r u,
+      ChainRun.run (seqRec data) (s :: ss) (ChainRun.init _ (s :: ss) src.iterate) (ops ++ [.take k]) = .ok r ∧
+      ChainRun.run (seqRec data) (s :: ss) (ChainRun.init _ (s :: ss) src.iterate) [.take k] = .ok u ∧
+      r.delivered = chainOut (s :: ss) (seqElems data src) ∧
+      aggsDown _ (s :: ss) r.c.top = finalAggs (s :: ss) (seqElems data src) ∧
+      ChainIt.aggState _ (s :: ss) r.c = ChainIt.aggState _ (s :: ss) u.c ∧
+      ChainIt.aggState _ (s :: ss) r.c =
+        ((s :: ss).zip (finalAggs (s :: ss) (seqElems data src))).reverse.filterMap
+          (fun p => if p.1.hasAgg then some (p.1.name, p.2) else none) := by
+  have hw : src.WF data.length := Src.WF.fromState (n := data.length) (ch := chain) hs
+  have hi : SeqIt.Inv data.length src.iterate := ⟨hw, Nat.le_refl _⟩
+  obtain ⟨r, u, r1, u1, r2, _, r3, _, _, r5, r6⟩ :=
+    C10_pipeline_chain_any (seqRec_refines data) s ss hf src.iterate hi ops k hk
+  exact ⟨r, u, r1, u1, r2, r3, r6, r5⟩
+
+/-- **… over a `ShardedIterable`** (round-robin shard of any iterable, any start index). -/
+theorem C10_pipeline_chain_any_iter (data : List β) (cfg : Cfg) (hn : 1 ≤ cfg.num)
+    (s : Stage β X S Res) (ss : List (Stage β X S Res))
+    (hf : ∀ t ∈ s :: ss, ∀ a, (t.f a).length ≤ 1) (ops : List Op) (k : Nat)
+    (hk : (chainOut (s :: ss) (iterElems data cfg)).length < k) :
+    ∃ r u,
+      ChainRun.run (iterRec data) (s :: ss) (ChainRun.init _ (s :: ss) (⟨cfg, 0⟩ : IterIt)) (ops ++ [.take k]) = .ok r ∧
+      ChainRun.run (iterRec data) (s :: ss) (ChainRun.init _ (s :: ss) (⟨cfg, 0⟩ : IterIt)) [.take k] = .ok u ∧
+      r.delivered = chainOut (s :: ss) (iterElems data cfg) ∧
+      aggsDown _ (s :: ss) r.c.top = finalAggs (s :: ss) (iterElems data cfg) ∧
+      ChainIt.aggState _ (s :: ss) r.c = ChainIt.aggState _ (s :: ss) u.c := by
+  have e : IterIt.rem data (⟨cfg, 0⟩ : IterIt) = iterElems data cfg := by simp [IterIt.rem, iterElems]
+  obtain ⟨r, u, r1, u1, r2, _, r3, _, _, _, r6⟩ :=
+    C10_pipeline_chain_any (iterRec_refines data) s ss hf (⟨cfg, 0⟩ : IterIt) hn ops k (by rw [e]; exact hk)
+  rw [e] at r2 r3
+  exact ⟨r, u, r1, u1, r2, r3, r6⟩
+
 end chains
 
 /-! ## Chains that buffer (re-batching): the exact loss (finding F16)
